@@ -189,8 +189,11 @@ func (x *X) curFuncName() string {
 
 // ---- heap variables -------------------------------------------------------
 
-func (s *State) epochFor(name string) int {
-	e := s.gen
+func (x *X) epochFor(s *State, name string) int {
+	e := 0
+	if x.W.unstable(name) {
+		e = s.gen
+	}
 	for p, g := range s.pgen {
 		if g > e && strings.HasPrefix(name, p) {
 			e = g
@@ -207,7 +210,7 @@ func (x *X) heapRead(s *State, name string, sort *Sort) *Term {
 		panic(fmt.Sprintf("heap var %s used at sorts %s and %s", name, old, sort))
 	}
 	x.heapSort[name] = sort
-	t := x.B.Const(fmt.Sprintf("%s@%d", name, s.epochFor(name)), sort)
+	t := x.B.Const(fmt.Sprintf("%s@%d", name, x.epochFor(s, name)), sort)
 	s.heap[name] = t
 	return t
 }
@@ -227,12 +230,17 @@ func (x *X) havocAll(s *State) {
 	s.gen = x.nextGen
 	keep := map[string]*Term{}
 	for k, v := range s.heap {
-		if strings.HasPrefix(k, "ghost:") {
+		if !x.W.unstable(k) {
 			keep[k] = v
 		}
 	}
 	s.heap = keep
-	s.pgen = map[string]int{}
+	// per-prefix epochs of stable names must survive
+	for p := range s.pgen {
+		if x.W.unstable(p) {
+			delete(s.pgen, p)
+		}
+	}
 }
 
 // havocNames forgets every heap variable whose name starts with one of the
